@@ -28,6 +28,13 @@ CLAIMED["C05"] = (
     "same cos/sin symbols in code and oracle.",
     "floats as reals, tolerance 1e-6 on |coordinates|<=1e3; cos/sin axiomatised (unit circle, Taylor enclosures, sign facts, "
     "angle sums); polygons from a small concrete family at a symbolic offset; shapely replaced by shapely-lite", "2/C05")
+CLAIMED["C04"] = (
+    "occupancy_at_time / state_at_time of every obstacle role (static, dynamic with trajectory, set-based or no prediction, "
+    "phantom, environment) and occupancy_shape_from_state run symbolically with the initial time step, the query time and all "
+    "poses as solver variables; z3 proves the time pairing, None exactly outside the horizon, and that the occupancy is the "
+    "shape placed at the state (point-mass heading = atan2(vy,vx)).",
+    "trajectories of <= 3 states; obstacle shapes given in the obstacle frame (centred); floats as reals; trig axiomatised; "
+    "enclosure for uncertain states and scenario-level queries: see evidence clauses_outside_claim", "2/C04")
 NOT_YET = {}
 
 props = [json.loads(l) for l in open(os.path.join(ROOT, "properties.jsonl"))]
